@@ -35,7 +35,7 @@ ID = "C17"
 QUICK_RUNS = 1600
 CHUNK = 20
 THOROUGH_BUDGET_S = 900
-WATCHDOG = 180.0
+WATCHDOG = 120.0
 LEVEL = "exploration"
 RULE = (
     "one run = (words world, pack, rule DB as in C01) x crash mode: 'pickle' at a sampled packet k with twin continuation, 'resume' "
